@@ -40,7 +40,10 @@ class HttpShard(ShardCMC):
         # read-only shard: chunks are looked up in the minishards that were
         # just read from the shard index
         self.minishard_dict = self.ro_minishard_dict
-        assert self.can_read_cmc
+        if not self.can_read_cmc:
+            raise ShardedIOError(f"Shard {self.shard_key_str} was not found "
+                                 f"at {self.base_url} (neither .shard nor "
+                                 ".index/.data)")
 
     def file_exists(self, filepath):
         resp = self._session.head(f"{self.base_url}{filepath}")
